@@ -142,10 +142,9 @@ func (s *Solver) discharge(c *Ctx, o *Obligation) {
 			continue // no longer limit than the short attempts
 		}
 		t := a.t
-		if !a.sliced && candidate {
-			// a candidate counterexample exists: give the full query a short try only
-			t = min(t, 4)
-		}
+		// (a model of the sliced query is only a candidate counterexample: the
+		// full query keeps its whole budget, otherwise a loaded machine turns
+		// an obligation whose full query needs a few seconds into an alarm)
 		s1 := &Solver{dir: s.dir, timeoutS: t, agree: s.agree, single: true}
 		q := c.query(o, false)
 		if a.sliced {
